@@ -143,7 +143,7 @@ impl PragProblem {
             p["speed"] = json!(1.0);
         }
         let mut features = self.features.clone();
-        for f in ["asymmetric", "unreachable", "unreachable-pair"] {
+        for f in ["asymmetric", "unreachable", "unreachable-outgoing-only", "unreachable-pair"] {
             features.remove(f);
         }
         features.insert("coordinates".into());
@@ -780,14 +780,19 @@ pub fn generate_with_grid(rng: &mut Rng, cfg: &GenCfg) -> (PragProblem, Vec<(i64
                 let candidates: Vec<usize> = (0..n_loc).filter(|l| !fleet_locs.contains(l)).collect();
                 if !candidates.is_empty() && (pi == 0 || rng.chance(0.5)) {
                     let l = *rng.pick(&candidates);
+                    // two shapes: the location is cut off in both directions, or it can be reached but not left (a job there
+                    // can only end an open tour) - the onward leg of an insertion has to be looked at as well as the inbound one
+                    let no_way_out_only = rng.chance(0.4);
                     for x in 0..n_loc {
                         if x != l {
-                            codes[x * n_loc + l] = 1;
+                            if !no_way_out_only {
+                                codes[x * n_loc + l] = 1;
+                            }
                             codes[l * n_loc + x] = 1;
                         }
                     }
                     any = true;
-                    features.insert("unreachable".into());
+                    features.insert(if no_way_out_only { "unreachable-outgoing-only" } else { "unreachable" }.into());
                 }
             }
             if any {
